@@ -1329,7 +1329,7 @@ class Executor(Generic[TContext]):
                     append_awaitable(index)
 
                 index += 1
-        except Exception:
+        except BaseException:  # also close the iterator when cancelled
             if early_return is not None:  # pragma: no branch
                 with suppress_exceptions:
                     await early_return()
